@@ -103,6 +103,9 @@ pub async fn handle_notify_get_or_head(
         Err(resp) => return Ok(resp),
     };
 
+    #[cfg(feature = "verif-hooks")]
+    crate::verif::yield_point("notify.after_need_wait");
+
     if wait {
         notify.subscribe().recv().await;
     }
